@@ -36,6 +36,10 @@ func ln(v ssa.Value) idxNode { return idxNode{'l', canonLenOperand(v)} }
 var loadCanon = map[*ssa.Function]map[string]ssa.Value{}
 var storeOf = map[ssa.Value]*ssa.Store{}
 
+// writtenGlobals: package-level variables stored to (or whose address escapes) outside package initialisers.
+var writtenGlobals map[*ssa.Global]bool
+var globalCanon = map[*ssa.Global]ssa.Value{}
+
 func canonLenOperand(v ssa.Value) ssa.Value {
 	for {
 		switch x := v.(type) {
@@ -44,6 +48,13 @@ func canonLenOperand(v ssa.Value) ssa.Value {
 			continue
 		case *ssa.UnOp:
 			if x.Op != token.MUL {
+				return v
+			}
+			if g, isG := x.X.(*ssa.Global); isG && writtenGlobals != nil && !writtenGlobals[g] {
+				if rep, ok := globalCanon[g]; ok {
+					return rep
+				}
+				globalCanon[g] = v
 				return v
 			}
 			key := addrKey(x.X, 4)
